@@ -8,7 +8,7 @@ import TakVerif.Proofs.SearchLoop
 * `getMoveFrom_att` / `getMove_att` — hence so does the move `GetMove` returns (a decisive value switches the randomised
   choice off; without it the PV head is returned);
 * `analyzeAllFrom_att` / `analyzeAll_att` — every line `AnalyzeAll` lists starts with a move that keeps the win (the
-  first line is `Analyze`'s PV, every other line was admitted because its zero-width search returned exactly `-v`);
+  first line is `Analyze`'s PV, every other line was listed because its zero-width search returned exactly `-v`);
 * `loss_all_moves` — when a loss is reported every accepted move, in particular the one played / listed, leads to a
   position the opponent wins (this is a fact about lost positions, not about the search). -/
 namespace Search
